@@ -17,11 +17,25 @@ import (
 	"encoding/json"
 	"fmt"
 	"os"
+	"runtime"
 	"strconv"
 	"strings"
 	"sync"
 	"time"
 )
+
+// vGoID identifies the running goroutine (natively parsed from the stack header; under
+// the executor the goroutine's creation index).
+func vGoID() int {
+	var buf [64]byte
+	n := runtime.Stack(buf[:], false)
+	f := strings.Fields(string(buf[:n]))
+	if len(f) >= 2 {
+		id, _ := strconv.Atoi(f[1])
+		return id
+	}
+	return -1
+}
 
 var vLogOff int64
 
@@ -319,6 +333,9 @@ func init() {
 	}
 	rtIntrinsics["vIteStr"] = func(c *PathCtx, fr *frame, args []Value) Value {
 		return tIte(args[0].(*Term), args[1].(*Term), args[2].(*Term))
+	}
+	rtIntrinsics["vGoID"] = func(c *PathCtx, fr *frame, args []Value) Value {
+		return mkBV(64, uint64(c.cur.id))
 	}
 	rtIntrinsics["vSymbolic"] = func(c *PathCtx, fr *frame, args []Value) Value { return tTrue }
 }
